@@ -25,6 +25,7 @@ PROPS = {
         "constants": ["ACTION_ID_BYTES", "MESSAGE_ID_BYTES", "ACTION_ID_PREALLOC_LEN", "MESSAGE_ID_PREALLOC_LEN"],
         "trusted": COMMON_TRUST + ["the shuffle of each id block is an arbitrary permutation (oracle input read through the hook accessor)"],
         "assumptions": ["rand's shuffle returns a permutation of the block"],
+        "level_note": "generators: 8-byte layout, injectivity, freshness over 2^24 / 2^40 draws for every family of shuffles; attribution at handler-model level for every run: stored searches have pairwise distinct action ids (none the refresh's 0 or the bootstrap's 1), outstanding queries of a search pairwise distinct ids (C19_attribution, C19_attribution_unique; bootstrap exchanges: C15_exchanges_distinct); that every query on the wire carries such an id is decided by the [C19] wire oracle of the node engine",
     },
     "C06": {
         "engines": [{"name": "token", "quick": 60, "thorough": 600}, {"name": "handler", "quick": 40, "thorough": 600, "oracle_tag": "C06"}],
